@@ -4,6 +4,8 @@ use super::disp_imports::*;
 mod free_path;
 
 pub use free_path::FreePathStatus;
+#[cfg(feature = "nrel_altrios_verif")]
+pub use free_path::verif_scans;
 
 mod advance_rewind;
 
